@@ -213,11 +213,11 @@ def h_caller(sym):
 
 HARNESSES = [
     # concern 1: matching, all fields symbolic, no actions
-    Harness('match', h_dispatch, quick=dict(regs=3, packets=1, actions=False), thorough=dict(regs=4, packets=2, actions=False),
+    Harness('match', h_dispatch, quick=dict(regs=3, packets=1, actions=False), thorough=dict(regs=4, packets=1, actions=False),
             timeout=(200, 2000), goals=('delivered',)),
     # concern 2: add/remove/raise from inside callbacks, concrete registrations, symbolic headers and actions
     Harness('mutate', h_dispatch, quick=dict(regs=4, packets=2, concrete_regs=True, callable_kinds=True),
-            thorough=dict(regs=5, packets=3, concrete_regs=True, callable_kinds=True), timeout=(300, 3000),
+            thorough=dict(regs=5, packets=2, concrete_regs=True, callable_kinds=True), timeout=(300, 3000),
             goals=('delivered', 'removed-during-dispatch')),
     # both at once, small
     Harness('combined', h_dispatch, quick=dict(regs=2, packets=1), thorough=dict(regs=2, packets=2), timeout=(200, 2000),
